@@ -11,6 +11,7 @@
 
 #include <verif/child.hpp>
 #include <verif/subject.hpp>
+#include <verif/vmhook.hpp>
 
 using namespace verif;
 
@@ -846,6 +847,7 @@ int main(int argc, char** argv)
             [&]
             {
                 world().init();
+                vm_hooked()   = true; // from here on the library's reservations are observed
                 world().carve = x.num("carve") != 0;
                 world().down  = x.num("down") != 0;
                 Runner r(x);
